@@ -145,6 +145,20 @@ CHECKS = {
             "densifies to for one value of the flag. Decided for all values, shapes and nestings at once. NOT "
             "decided: numerical agreement of matmul / transpose / to_dense (FFT, Kronecker reshapes, interpolation).",
             TRUST, "DESIGN.md section 3, C01"),
+    "C07": (True,
+            "table agreement over the positional protocol of the autograd Functions (forward signature x backward "
+            "tuples x needs_input_grad indices x saved-tensor layouts x apply sites), with CFG reachability for "
+            "branch correlation",
+            "Partial, structural: for all 9 torch.autograd.Function classes the fixed prefix of every backward tuple "
+            "equals the number of fixed forward inputs on that layout (P1), every needs_input_grad index gates the "
+            "gradient returned at exactly that position and the [j:] slice starts where the representation starts "
+            "(P2), save_for_backward and the unpacking of saved_tensors agree on what precedes / follows the "
+            "representation (P3), every apply site passes the number of fixed arguments the forward expects for its "
+            "layout flag and no self.X in the slot of another parameter X (P4), and backward rebuilds the operator from "
+            "the saved representation slice (P6). PyTorch checks tuple length only on executed paths and the tests set "
+            "requires_grad on everything, so misaligned indices / shifted prefixes on requires_grad subsets are "
+            "invisible to them. NOT decided: gradient VALUES, hand-written _bilinear_derivative layouts.",
+            TRUST, "DESIGN.md section 3, C07"),
 }
 
 NOT_APPLICABLE = {
